@@ -101,6 +101,10 @@ def make_task(kind, direction, seed, log=None):
         vs = [ContinuousVariable(name="x", lower_bound=-2.5, upper_bound=7.0)]
     elif kind == "nanobj":    # an objective that is undefined (NaN) on part of the box
         vs = [ContinuousMultiVariable(name="x", lower_bounds=[-3, -3], upper_bounds=[5, 5])]
+    elif kind == "infpen":    # an infinite penalty on part of the box (a legitimate, deterministic objective)
+        vs = [ContinuousMultiVariable(name="x", lower_bounds=[-3, -3], upper_bounds=[5, 5])]
+    elif kind == "multiobjc":  # a two-objective task whose objective hands back one and the same list object on part of the box
+        vs = [ContinuousMultiVariable(name="x", lower_bounds=[-4, 0], upper_bounds=[4, 6])]
     elif kind == "multi1":    # dimension 1 written with a multi-variable of one coordinate
         vs = [ContinuousMultiVariable(name="x", lower_bounds=[-2.5], upper_bounds=[7.0])]
     elif kind == "multi1b":   # a size-1 multi-variable next to another variable
@@ -123,10 +127,13 @@ def make_task(kind, direction, seed, log=None):
     else:
         raise ValueError(kind)
     kw = dict(variables=vs, minmax=direction, seed=seed, data={"kind": kind, "log": log})
-    if kind == "multiobj":
+    if kind in ("multiobj", "multiobjc"):
         kw["objective_weights"] = [0.3, 0.9]       # deliberately not normalised
     t = _T(**kw)
     return t, calls
+
+
+_PENALTY = [50.0, 40.0]          # one list object, returned again and again (the library must not write into it)
 
 
 def _objective(kind, x):
@@ -145,6 +152,12 @@ def _objective(kind, x):
         return (x[0] - 1.0) ** 2 - 3.0          # negative costs occur
     if kind == "multi1b":
         return (x[0] - 1.0) ** 2 + (x[1] - 2.0) ** 2 - 3.0
+    if kind == "infpen":
+        return float("inf") if x[0] > 2.0 else float((x[0] + 1.0) ** 2 + (x[1] - 1.0) ** 2 + 0.5)
+    if kind == "multiobjc":
+        if x[0] > 1.0:
+            return _PENALTY if not kind.startswith("neg:") else [-v for v in _PENALTY]
+        return [x[0] ** 2 + 1.0, (x[1] - 2.0) ** 2]
     if kind == "nanobj":
         return float(sum((math.log(v) - v) if v > 0 else float("nan") for v in x))
     if kind == "contbig":
@@ -599,7 +612,7 @@ def run_pair(case):
             b = K(C(**case["cfg_kw"])).optimize(fresh())
             if a.model_dump() != b.model_dump():
                 rec["monitors"]["C18"] = "run after set_config_parameters differs from run of an optimizer built with the config"
-        elif sc in ("duality", "duality_nan"):
+        elif sc in ("duality", "duality_nan", "duality_cached"):
             import warnings
             with warnings.catch_warnings():
                 warnings.simplefilter("ignore")
@@ -614,6 +627,13 @@ def run_pair(case):
                 for ga, gb in zip(a.evolution, b.evolution))
             if not same:
                 rec["monitors"]["C12"] = "max f and min -f visit different positions / costs are not exact negatives"
+            elif sc != "duality_nan":       # (ranking undefined values is not symmetric: the reports are compared on defined costs only)
+                from pyvolutionary.utils import best_agent_trend
+                ta, tb = best_agent_trend(a), best_agent_trend(b)
+                if len(ta) != len(tb) or not all(opp(u, v) for u, v in zip(ta, tb)):
+                    rec["monitors"]["C12"] = f"best_agent_trend of max f {ta[:3]} is not the negative of that of min -f {tb[:3]}"
+                elif _PENALTY != [50.0, 40.0]:
+                    rec["monitors"]["C12"] = f"the list returned by the objective was modified by the library: {_PENALTY}"
     except Exception as ex:
         tb = traceback.extract_tb(ex.__traceback__)
         fn = next((f"{os.path.basename(f.filename)}:{f.name}" for f in reversed(tb) if "pyvolutionary" in f.filename), "?")
@@ -679,6 +699,49 @@ class CaseTimeout(BaseException):
     pass
 
 
+def run_fresh_process(cases):
+    """process-mode runs as the very first use of multiprocessing in a fresh interpreter (what a user's script does): the
+    initial population must not contain exact duplicates (workers replaying the parent's random stream)"""
+    import subprocess, tempfile
+    with tempfile.NamedTemporaryFile("w", suffix=".json", delete=False) as f:
+        json.dump(cases, f, default=str)
+    p_ = subprocess.run([sys.executable, "-m", "pyvc.bnd", "--fresh-process-child", f.name], cwd=VERIF, capture_output=True, text=True,
+                        env=dict(os.environ, PYVC_REPO=REPO), timeout=900)
+    os.unlink(f.name)
+    try:
+        outs = json.loads(p_.stdout.strip().splitlines()[-1])
+    except Exception:  # noqa
+        outs = None
+    recs = []
+    for i, case in enumerate(cases):
+        rec = {"case": {k: case[k] for k in case if k != "cfg_kw"}, "monitors": {}, "exc": None, "initial_duplicates": 0}
+        if outs is None:
+            rec["harness_error"] = "fresh-process child produced no output: " + (p_.stderr or "")[-200:]
+        elif isinstance(outs[i], str):
+            rec["exc"] = {"type": outs[i], "where": "?", "msg": "in a fresh interpreter"}
+        else:
+            rec["initial_duplicates"] = outs[i]
+        recs.append(rec)
+    return recs
+
+
+def _fresh_process_child(path):
+    sys.path.insert(0, REPO)
+    import pyvolutionary as pv
+    import contextlib, io
+    outs = []
+    for case in json.load(open(path)):
+        try:
+            task, _ = make_task(case["kind"], case["direction"], case["seed"])
+            with contextlib.redirect_stdout(io.StringIO()):
+                res = getattr(pv, case["opt"])(getattr(pv, case["cfg_name"])(**case["cfg_kw"])).optimize(task, mode="process", workers=case["workers"])
+            pos0 = [tuple(map(repr, a.position)) for a in res.evolution[0].agents]
+            outs.append(len(pos0) - len(set(pos0)))
+        except Exception as ex:  # noqa
+            outs.append(type(ex).__name__)
+    print(json.dumps(outs))
+
+
 def _dispatch(case):
     """one case under a wall-clock limit: a run that does not come back is recorded as such (optimize() must terminate)"""
     import signal
@@ -708,7 +771,9 @@ def _dispatch_inner(case):
     try:
         if case.get("scenario") == "xproc":
             return run_xproc([case])[0]
-        if case.get("scenario") in ("repro", "reuse", "setcfg", "duality", "reuse2", "repro0", "setcfg2", "duality_reuse", "reuse3", "reuse_dim", "duality_nan", "reuse_int", "repro_bad"):
+        if case.get("scenario") == "fresh_process":
+            return run_fresh_process([case])[0]
+        if case.get("scenario") in ("repro", "reuse", "setcfg", "duality", "reuse2", "repro0", "setcfg2", "duality_reuse", "reuse3", "reuse_dim", "duality_nan", "reuse_int", "repro_bad", "duality_cached"):
             return run_pair(case)
         return run_case(case)
     except Exception as ex:  # harness failure
@@ -792,6 +857,11 @@ def build_cases(tier, seed):
                               scenario=scn, scale=1.0))
         cases.append(dict(opt=opt, cfg_name=cfg_name, cfg_kw=dict(base, max_cycles=3), kind="nanobj", direction="min", seed=seeds[0], mode=None,
                           scenario="duality_nan", scale=1.0))
+        cases.append(dict(opt=opt, cfg_name=cfg_name, cfg_kw=dict(base, max_cycles=3), kind="multiobjc", direction="min", seed=seeds[0], mode=None,
+                          scenario="duality_cached", scale=1.0))
+        for direction in ("min", "max"):
+            cases.append(dict(opt=opt, cfg_name=cfg_name, cfg_kw=dict(base, max_cycles=3), kind="infpen", direction=direction, seed=seeds[0],
+                              mode=None, scenario="single", scale=1.0))
         # re-configuration that changes one algorithm parameter and keeps the population size
         for pname, pval in sorted(base.items()):
             if pname in ("population_size", "max_cycles", "fitness_error") or isinstance(pval, bool) or not isinstance(pval, int):
@@ -837,6 +907,13 @@ def build_cases(tier, seed):
         for kind in ("multi1", "multi1b"):
             cases.append(dict(opt=opt, cfg_name=cfg_name, cfg_kw=dict(base, max_cycles=3), kind=kind, direction="min", seed=seeds[0],
                               mode=None, scenario="single", scale=1.0))
+    # process mode as the first use of multiprocessing in a fresh interpreter (three optimizers, one interpreter)
+    for opt_ in sorted(cfgs)[:3]:
+        cfg_name_, kw0_ = cfgs[opt_]
+        b_ = dict(kw0_, fitness_error=None, max_cycles=1)
+        b_.pop("early_stopping", None)
+        cases.append(dict(opt=opt_, cfg_name=cfg_name_, cfg_kw=b_, kind="cont3", direction="min", seed=seed + 1, mode="process", workers=4,
+                          scenario="fresh_process", scale=1.0))
     for c_ in cases:        # budget and size are part of a case's identity (replay finds the case by these keys)
         c_["mc"] = c_["cfg_kw"].get("max_cycles")
         c_["pop"] = c_["cfg_kw"].get("population_size")
@@ -853,10 +930,13 @@ def campaign(tier="quick", seed=0, procs=None):
     procs = procs or min(16, os.cpu_count() or 4)
     t0 = time.time()
     # process-mode cases start pools themselves: run those in a smaller outer pool
-    heavy = [c for c in cases if c.get("mode") == "process"]
+    heavy = [c for c in cases if c.get("mode") == "process" and c.get("scenario") != "fresh_process"]
     xproc = [c for c in cases if c.get("scenario") == "xproc"]
-    light = [c for c in cases if c.get("mode") != "process" and c.get("scenario") != "xproc"]
+    light = [c for c in cases if c.get("mode") != "process" and c.get("scenario") not in ("xproc", "fresh_process")]
     recs = run_xproc(xproc, ("1", "2") if tier == "quick" else ("1", "2", "3", "4")) if xproc else []
+    fresh_cases = [c for c in cases if c.get("scenario") == "fresh_process"]
+    if fresh_cases:
+        recs += run_fresh_process(fresh_cases)
     with ProcessPoolExecutor(procs) as ex:
         recs += list(ex.map(_dispatch, light, chunksize=4))
     with ProcessPoolExecutor(max(2, procs // 4)) as ex:
@@ -883,6 +963,10 @@ def _tree_key(tier, seed):
         h.update(open(f, "rb").read())
     return h.hexdigest()[:24]
 
+
+if __name__ == "__main__" and len(sys.argv) > 2 and sys.argv[1] == "--fresh-process-child":
+    _fresh_process_child(sys.argv[2])
+    sys.exit(0)
 
 if __name__ == "__main__" and len(sys.argv) > 2 and sys.argv[1] == "--xproc-child":
     with ProcessPoolExecutor(4) as ex_:
